@@ -94,7 +94,7 @@ def _is_scalar(x):
 
 
 class SArr(core._ArrLike):
-    __slots__ = ("buf", "shape", "strides", "offset", "dtype")
+    __slots__ = ("buf", "shape", "strides", "offset", "dtype", "__weakref__")
     __hash__ = None
     __array_priority__ = 1000
 
@@ -321,7 +321,11 @@ class SArr(core._ArrLike):
         r, rk = self._expand(sels[0], 0)
         c, ck = self._expand(sels[1], 1)
         if sels[0][0] == "fancy" and sels[1][0] == "fancy":
-            raise Unsupported("fancy index on both axes")
+            # numpy pairs the two index arrays element by element
+            if len(sels[0][1]) != len(sels[1][1]):
+                raise IndexError("shape mismatch: indexing arrays could not be broadcast together")
+            vals = [self._get((i, j)) for i, j in zip(sels[0][1], sels[1][1])]
+            return SArr(Buf(vals), (len(vals),), dtype=self.dtype)
         vals = [self._get((i, j)) for i in r for j in c]
         shape = tuple(n for n, keep in ((len(r), rk), (len(c), ck)) if keep)
         return SArr(Buf(vals), shape, dtype=self.dtype)
@@ -376,6 +380,12 @@ class SArr(core._ArrLike):
             vals = _bcast_to(value, (len(idx),))
             for i, v in zip(idx, vals):
                 self._set((i,), v)
+            return
+        if sels[0][0] == "fancy" and sels[1][0] == "fancy":
+            pairs = list(zip(sels[0][1], sels[1][1]))
+            vals = _bcast_to(value, (len(pairs),))
+            for (i, j), v in zip(pairs, vals):
+                self._set((i, j), v)
             return
         r, rk = self._expand(sels[0], 0)
         c, ck = self._expand(sels[1], 1)
@@ -619,6 +629,8 @@ def _infer_dtype(vals):
 
 
 def _dtype_of(t):
+    if t in ("f", "i", "b"):
+        return t
     if t in (int, int32, int64) or getattr(t, "__name__", "") in ("sym_int", "int"):
         return "i"
     if t in (float, float64, float32) or getattr(t, "__name__", "") == "float":
@@ -1498,3 +1510,69 @@ add = _UFunc(_add, "add")
 subtract = _UFunc(_sub, "subtract")
 multiply = _UFunc(_mul, "multiply")
 divide = _UFunc(_truediv, "divide")
+
+
+def histogram2d(x, y, bins=10, range=None):
+    """counts of (x, y) pairs on an equal-width grid; default range = [min, max] per axis (numpy semantics,
+    last bin closed); values are concretised by forking (used on small integer label vectors)"""
+    if range is not None or not isinstance(bins, int) and not isinstance(bins, SymInt):
+        raise Unsupported("histogram2d with explicit range / non-scalar bins")
+    nb = _idx(bins)
+    xs = [_idx(v) if is_sym(v) else v for v in asarray(x).flat()]
+    ys = [_idx(v) if is_sym(v) else v for v in asarray(y).flat()]
+
+    def edges(vals):
+        lo, hi = _bi.min(vals), _bi.max(vals)
+        if lo == hi:
+            lo, hi = lo - 0.5, hi + 0.5
+        return lo, hi
+
+    def binof(v, lo, hi):
+        if v == hi:
+            return nb - 1
+        return int((v - lo) / (hi - lo) * nb)
+    H = zeros((nb, nb))
+    if xs:
+        (xl, xh), (yl, yh) = edges(xs), edges(ys)
+        for a, b in zip(xs, ys):
+            i, j = binof(a, xl, xh), binof(b, yl, yh)
+            H[i, j] = H[i, j] + 1
+        xe = [xl + (xh - xl) * t / nb for t in _bi.range(nb + 1)] if False else [xl + (xh - xl) * t / nb for t in __import__("builtins").range(nb + 1)]
+        ye = [yl + (yh - yl) * t / nb for t in __import__("builtins").range(nb + 1)]
+    else:
+        xe = ye = [0.0] * (nb + 1)
+    return H, SArr(Buf(xe), (nb + 1,)), SArr(Buf(ye), (nb + 1,))
+
+
+def triu_indices(n, k=0, m=None):
+    m = n if m is None else m
+    rr = [i for i in __import__("builtins").range(n) for j in __import__("builtins").range(m) if j - i >= k]
+    cc = [j for i in __import__("builtins").range(n) for j in __import__("builtins").range(m) if j - i >= k]
+    return SArr(Buf(rr), (len(rr),), dtype="i"), SArr(Buf(cc), (len(cc),), dtype="i")
+
+
+def tril_indices(n, k=0, m=None):
+    m = n if m is None else m
+    rr = [i for i in __import__("builtins").range(n) for j in __import__("builtins").range(m) if j - i <= k]
+    cc = [j for i in __import__("builtins").range(n) for j in __import__("builtins").range(m) if j - i <= k]
+    return SArr(Buf(rr), (len(rr),), dtype="i"), SArr(Buf(cc), (len(cc),), dtype="i")
+
+
+def triu(a, k=0):
+    a = asarray(a)
+    out = a.copy()
+    for i in __import__("builtins").range(a.shape[0]):
+        for j in __import__("builtins").range(a.shape[1]):
+            if j - i < k:
+                out._set((i, j), 0.0 if a.dtype == "f" else 0)
+    return out
+
+
+def tril(a, k=0):
+    a = asarray(a)
+    out = a.copy()
+    for i in __import__("builtins").range(a.shape[0]):
+        for j in __import__("builtins").range(a.shape[1]):
+            if j - i > k:
+                out._set((i, j), 0.0 if a.dtype == "f" else 0)
+    return out
